@@ -124,6 +124,11 @@ func (u *sysUniverse) apply(a SysAct) *sysObs {
 		s := cell(a.C)
 		r := safely(func() ([]byte, error) { err := s.RenderWithFile(w, f); return nil, err })
 		return &sysObs{status: r.status, out: w.buf.Bytes(), calls: w.calls, f: f}
+	case "Plain":
+		w := &recWriter{}
+		s := cell(a.C)
+		r := safely(func() ([]byte, error) { err := s.Render(w); return nil, err })
+		return &sysObs{status: r.status, out: w.buf.Bytes(), calls: w.calls, f: nil}
 	default:
 		fatal("system tier: unknown action " + a.A)
 	}
@@ -175,8 +180,18 @@ func ReplaySystem(tw *TraceWriter, id int, h []SysAct) {
 			var to *sysObs
 			for j := 0; j <= k; j++ {
 				b := h[j]
-				if b.F != 0 && b.F != a.F {
+				if b.F != 0 && b.F != a.F || (a.A == "Plain" && b.F != 0) || (b.A == "Plain" && j < k) {
 					continue
+				}
+				if j == k && a.A == "Plain" {
+					// the twin of Render(w) is RenderWithFile(w, a fresh File) - and GoString must agree as well
+					w := &recWriter{}
+					s := tu.cells[a.C-1]
+					r := safely(func() ([]byte, error) { err := s.RenderWithFile(w, jen.NewFile("")); return nil, err })
+					to = &sysObs{status: r.status, out: w.buf.Bytes()}
+					gs := safely(func() ([]byte, error) { return []byte(s.GoString()), nil })
+					rec["twin2"] = o.status != "nil" || (gs.status == "nil" && bytes.Equal(gs.out, o.out))
+					break
 				}
 				if r := tu.apply(b); j == k {
 					to = r
@@ -199,7 +214,11 @@ func ReplaySystem(tw *TraceWriter, id int, h []SysAct) {
 			rec["status"], rec["raw"], rec["israw"] = o.status, raw, nf && o.status == "nil"
 			rec["toks"] = codeToks(o.out)
 			rec["specs"], rec["prefs"], rec["bare"] = specs, prefs, bare
-			rec["table"] = tableOf(o.f)
+			if o.f != nil {
+				rec["table"] = tableOf(o.f)
+			} else {
+				rec["table"] = []Rec{}
+			}
 			rec["out"] = Hash(o.out)
 			rec["nbytes"] = len(o.out)
 			rec["twin"] = to != nil && to.status == o.status && bytes.Equal(to.out, o.out)
@@ -258,7 +277,7 @@ func randomSystemHistory(r *rand.Rand, nops int) []SysAct {
 		nc := len(cells)
 		f := 1 + r.Intn(nfiles)
 		p := sysPaths[r.Intn(len(sysPaths))]
-		switch k := r.Intn(20); {
+		switch k := r.Intn(21); {
 		case k < 2 || nc == 0:
 			switch r.Intn(3) {
 			case 0:
@@ -321,6 +340,8 @@ func randomSystemHistory(r *rand.Rand, nops int) []SysAct {
 			for _, q := range sysPaths { // conservative: after a render any path may be registered in f
 				registered[fmt.Sprint(f, q)] = true
 			}
+		case k < 19:
+			h = append(h, SysAct{A: "Plain", C: 1 + r.Intn(nc)})
 		default:
 			h = append(h, SysAct{A: "Frag", F: f, C: 1 + r.Intn(nc)})
 			for _, q := range sysPaths {
